@@ -151,6 +151,14 @@ def _add_inc(res, reason, ctx=None):
     for r in res['inconclusive']:
         if r['reason'] == reason:
             r['count'] = r.get('count', 1) + 1
+            if ctx is not None and len(r.get('more_examples', [])) < 3 and \
+                    r['count'] in (2, 5, 17):
+                try:
+                    if ctx._check():
+                        r.setdefault('more_examples', []).append(
+                            ctx.model_values(ctx.solver.model()))
+                except BaseException:
+                    pass
             return
     if len(res['inconclusive']) < 20:
         ent = {'reason': reason, 'count': 1}
@@ -340,6 +348,48 @@ def finish(prop, mod, tier, seed, repo, cells, results, t0):
                                             (o.get('observed'),
                                              w['observed'])})
     validated += enc_checked
+    # 2b. paths the engine could not finish (unsupported operation, budget):
+    # the solver's witness of the path condition is run natively; a native
+    # failure is a real counterexample although the path itself was not
+    # decided symbolically
+    for r in results:
+        exs = []
+        for inc in r.get('inconclusive') or []:
+            for e in [inc.get('example_inputs')] + \
+                    list(inc.get('more_examples') or []):
+                if e:
+                    exs.append(e)
+        if not exs:
+            continue
+        outs = native_replay(prop, r['cell'], exs, repo)
+        for e, o in zip(exs, outs):
+            if o.get('error') or not o.get('failed'):
+                continue
+            validated += 1
+            fl = o['failed'][0]
+            fields = {'label': fl['label']}
+            fields.update(dict((k, v2) for k, v2 in (r['cell'] or {}).items()
+                               if isinstance(v2, (int, str, bool))))
+            if classify:
+                try:
+                    fields.update(classify(r['cell'], e, fl) or {})
+                except Exception as ex:
+                    fields['classify_error'] = repr(ex)
+            rec = {'property': prop, 'cell': r['cell'], 'inputs': e,
+                   'label': fl['label'], 'info': fl.get('info'),
+                   'symbolic_label': '(witness of an undecided path)',
+                   'fields': fields,
+                   'native_failed_labels': [f['label'] for f in o['failed']]}
+            kf = match_known(known, fields)
+            if kf is not None:
+                known_hits.setdefault(kf['id'], []).append(rec)
+                continue
+            nrep += 1
+            path = os.path.join(REPLAY_DIR, '%s-%d.json' % (prop, nrep))
+            with open(path, 'w') as f:
+                json.dump(rec, f, indent=1, sort_keys=True)
+            rec['path'] = path
+            violations_out.append(rec)
     # 3. vacuity / anchors
     entered = set()
     for r in results:
